@@ -25,6 +25,66 @@ use uds_windows::UnixListener;
 use crate::error::*;
 use crate::stream::Stream;
 
+/// Verification hooks (only with `--cfg varlink_rust_verif`): an installable probe callback that is
+/// invoked at the steps of the worker pool and of the listen loop (it may block, which lets a test
+/// harness force thread schedules), and a thin public wrapper to drive the private pool directly.
+#[cfg(varlink_rust_verif)]
+pub mod verif {
+    use std::cell::Cell;
+    use std::sync::atomic::{AtomicUsize, Ordering};
+    use std::sync::{Arc, RwLock};
+
+    pub type Probe = dyn Fn(&'static str, usize, usize, usize) + Send + Sync;
+
+    static PROBE: RwLock<Option<Arc<Probe>>> = RwLock::new(None);
+    static NEXT_WID: AtomicUsize = AtomicUsize::new(1);
+
+    thread_local! {
+        static WID: Cell<usize> = const { Cell::new(0) };
+    }
+
+    /// Install (or remove) the probe callback; worker ids restart at 1.
+    pub fn set_probe(p: Option<Arc<Probe>>) {
+        *PROBE.write().unwrap() = p;
+        NEXT_WID.store(1, Ordering::SeqCst);
+    }
+
+    /// Id of the calling worker thread (assigned at its first probe).
+    pub fn wid() -> usize {
+        WID.with(|w| {
+            if w.get() == 0 {
+                w.set(NEXT_WID.fetch_add(1, Ordering::SeqCst));
+            }
+            w.get()
+        })
+    }
+
+    pub fn probe(ev: &'static str, who: usize, a: usize, b: usize) {
+        let p = PROBE.read().unwrap().clone();
+        if let Some(p) = p {
+            p(ev, who, a, b);
+        }
+    }
+
+    /// Drives the private `ThreadPool` without sockets.
+    pub struct PoolHandle(super::ThreadPool);
+
+    impl PoolHandle {
+        pub fn new(initial_worker: usize, max_workers: usize) -> PoolHandle {
+            PoolHandle(super::ThreadPool::new(initial_worker, max_workers))
+        }
+        pub fn execute<F: FnOnce() + Send + 'static>(&mut self, f: F) {
+            self.0.execute(f)
+        }
+        pub fn num_busy(&self) -> usize {
+            self.0.num_busy()
+        }
+        pub fn num_workers(&self) -> usize {
+            self.0.workers.len()
+        }
+    }
+}
+
 #[derive(Debug)]
 pub enum Listener {
     TCP(Option<TcpListener>, bool),
@@ -290,6 +350,8 @@ impl Drop for Listener {
                 if let Ok(local_addr) = listener.local_addr() {
                     if let Some(path) = local_addr.as_pathname() {
                         let _ = fs::remove_file(path);
+                        #[cfg(varlink_rust_verif)]
+                        verif::probe("unlink", 0, 0, 0);
                     }
                 }
             }
@@ -385,18 +447,30 @@ impl ThreadPool {
         F: FnOnce() + Send + 'static,
     {
         let job = Box::new(f);
+        #[cfg(varlink_rust_verif)]
+        verif::probe("gate_acc_count", 0, 0, 0);
         {
             // count the job from the moment it is queued, not when a worker gets around to it
             let mut num_busy = self.num_busy.write().unwrap();
             *num_busy += 1;
+            #[cfg(varlink_rust_verif)]
+            verif::probe("acc_count", 0, *num_busy, self.workers.len());
         }
+        #[cfg(varlink_rust_verif)]
+        verif::probe("gate_acc_send", 0, 0, 0);
         self.sender.send(Message::NewJob(job)).unwrap();
+        #[cfg(varlink_rust_verif)]
+        verif::probe("acc_send", 0, 0, self.workers.len());
+        #[cfg(varlink_rust_verif)]
+        verif::probe("gate_acc_decide", 0, 0, 0);
         if (self.num_busy() > self.workers.len()) && (self.workers.len() < self.max_workers) {
             self.workers.push(Worker::new(
                 Arc::clone(&self.receiver),
                 Arc::clone(&self.num_busy),
             ));
         }
+        #[cfg(varlink_rust_verif)]
+        verif::probe("acc_decide", 0, self.num_busy(), self.workers.len());
     }
 
     pub fn num_busy(&self) -> usize {
@@ -407,15 +481,21 @@ impl ThreadPool {
 
 impl Drop for ThreadPool {
     fn drop(&mut self) {
+        #[cfg(varlink_rust_verif)]
+        verif::probe("gate_drop_send", 0, 0, 0);
         for _ in &mut self.workers {
             self.sender.send(Message::Terminate).unwrap();
         }
+        #[cfg(varlink_rust_verif)]
+        verif::probe("drop_send", 0, self.num_busy(), self.workers.len());
 
         for worker in &mut self.workers {
             if let Some(thread) = worker.thread.take() {
                 thread.join().unwrap();
             }
         }
+        #[cfg(varlink_rust_verif)]
+        verif::probe("drop_joined", 0, self.num_busy(), self.workers.len());
     }
 }
 
@@ -426,17 +506,29 @@ struct Worker {
 impl Worker {
     fn new(receiver: Arc<Mutex<mpsc::Receiver<Message>>>, num_busy: Arc<RwLock<usize>>) -> Worker {
         let thread = thread::spawn(move || loop {
+            #[cfg(varlink_rust_verif)]
+            verif::probe("gate_w_recv", verif::wid(), 0, 0);
             let message = receiver.lock().unwrap().recv().unwrap();
 
             match message {
                 Message::NewJob(job) => {
+                    #[cfg(varlink_rust_verif)]
+                    verif::probe("w_recv", verif::wid(), 1, 0);
+                    #[cfg(varlink_rust_verif)]
+                    verif::probe("gate_w_start", verif::wid(), 0, 0);
                     job.call_box();
+                    #[cfg(varlink_rust_verif)]
+                    verif::probe("gate_w_uncount", verif::wid(), 0, 0);
                     {
                         let mut num_busy = num_busy.write().unwrap();
                         *num_busy -= 1;
+                        #[cfg(varlink_rust_verif)]
+                        verif::probe("w_uncount", verif::wid(), *num_busy, 0);
                     }
                 }
                 Message::Terminate => {
+                    #[cfg(varlink_rust_verif)]
+                    verif::probe("w_recv", verif::wid(), 0, 0);
                     break;
                 }
             }
@@ -544,8 +636,12 @@ pub fn listen<S: ?Sized + AsRef<str>, H: crate::ConnectionHandler + Send + Sync 
             match listener.accept(wait_time) {
                 Err(e) => match e.kind() {
                     ErrorKind::Timeout => {
+                        #[cfg(varlink_rust_verif)]
+                        verif::probe("accept_tick", 0, to_wait as usize, wait_time as usize);
                         if let Some(stop) = listen_config.stop_listening.as_ref() {
                             if stop.load(Ordering::SeqCst) {
+                                #[cfg(varlink_rust_verif)]
+                                verif::probe("ret_stop", 0, pool.num_busy(), 0);
                                 return Ok(());
                             }
                             if listen_config.idle_timeout == 0 {
@@ -555,6 +651,8 @@ pub fn listen<S: ?Sized + AsRef<str>, H: crate::ConnectionHandler + Send + Sync 
 
                         if to_wait <= wait_time {
                             if pool.num_busy() == 0 {
+                                #[cfg(varlink_rust_verif)]
+                                verif::probe("ret_timeout", 0, 0, to_wait as usize);
                                 return Err(e);
                             }
                             to_wait = listen_config.idle_timeout * 1000;
@@ -571,9 +669,13 @@ pub fn listen<S: ?Sized + AsRef<str>, H: crate::ConnectionHandler + Send + Sync 
                 r => break r?,
             }
         };
+        #[cfg(varlink_rust_verif)]
+        verif::probe("accepted", 0, pool.num_busy(), 0);
         let handler = handler.clone();
 
         pool.execute(move || {
+            #[cfg(varlink_rust_verif)]
+            verif::probe("conn_start", verif::wid(), 0, 0);
             let (r, mut w) = stream.split().unwrap();
             let mut br = BufReader::new(r);
             let mut iface: Option<String> = None;
@@ -611,6 +713,8 @@ pub fn listen<S: ?Sized + AsRef<str>, H: crate::ConnectionHandler + Send + Sync 
                     }
                 }
             }
+            #[cfg(varlink_rust_verif)]
+            verif::probe("conn_end", verif::wid(), 0, 0);
         });
     }
 }
